@@ -64,7 +64,7 @@ PROPS = {
                 rule="shapes: EVERY code-emitting alternative of the CURRENT assembler grammar x every spelling of its mnemonic table x sampled operands "
                      "(generated from the grammar on each run); L3 = real Preprocessor vs model (byte-identical lines); L4 = the same programs executed by the real "
                      "binary: the real DataParser / Interpreter / PrintParser judge every emitted line (any 'Internal Error' is a violation); non-trivial = accepted program"),
-    "C11": dict(modules=["Emu8086.Props.C11"], runs=[("l3", "spell"), ("l3", "shapes"), ("l3", "operands"), ("l3", "roles")], gen=["Arch", "ILiterals", "PPGrammar"],
+    "C11": dict(modules=["Emu8086.Props.C11", "Emu8086.Props.C16Map"], runs=[("l3", "spell"), ("l3", "shapes"), ("l3", "operands"), ("l3", "roles")], gen=["Arch", "ILiterals", "PPGrammar"],
                 rule="spell: programs rendered from the grammar under two independent spelling choices (case of every keyword/register/mnemonic incl. synonyms, "
                      "radix / leading zeros / negative decimal with the same bit pattern / OFFSET of a label with that offset for every constant, amount and kind of "
                      "white space and line breaks): the real assembler must emit identical code and data lists for both (or refuse both with the same diagnostic) and "
